@@ -591,3 +591,25 @@ Proof.
   assert (clash_free k src (Some d) = true) as Hc by (apply merge_ok_iff; eauto).
   rewrite (clash_symlink k src d Hl Hs) in Hc. discriminate.
 Qed.
+
+(* ---------------------------------------------------------------- path spelling ------------- *)
+(* a `from` in filepath.Clean form: the root and every entry get their relative name *)
+Lemma rel_of_clean from rel : rel_of from (from ++ rel) = Some rel.
+Proof.
+  unfold rel_of. rewrite app_length.
+  replace (Nat.leb (length from) (length from + length rel)) with true by (symmetry; apply Nat.leb_le; lia).
+  f_equal. induction from as [|x r IH]; [reflexivity | exact IH].
+Qed.
+
+(* a directory `from` whose cleaned form is shorter (a//b, a/./b, a/, ./a, a/x/../b): the first
+   callback - the root - slices out of range *)
+Theorem unclean_from_panics from cleaned :
+  length cleaned < length from -> walk_panics from cleaned true = true.
+Proof.
+  intros H. unfold walk_panics, rel_of.
+  replace (Nat.leb (length from) (length cleaned)) with false by (symmetry; apply Nat.leb_gt; lia).
+  reflexivity.
+Qed.
+
+Theorem file_from_never_panics from cleaned : walk_panics from cleaned false = false.
+Proof. reflexivity. Qed.
